@@ -54,6 +54,6 @@ __gmp_doprnt_integer_ostream (ostream &o, struct doprnt_params_t *p,
   __gmp_asprintf_final (&d);
   (*__gmp_free_func) (s, strlen(s)+1);
 
-  gmp_allocated_string  t (result);
+  gmp_allocated_string  t (result, d.size);
   return o.write (t.str, t.len);
 }
